@@ -138,6 +138,13 @@ static unsigned char *make_data(val *d, size_t *plen)
 			if (period == 0 || period > 64) period = 1;
 			for (i = 0; i < period; i++) pat[i] = (unsigned char)(xs(&st) >> 32);
 			for (i = 0; i < n; i++) p[i] = pat[i % period];
+		} else if (kind == 4) {
+			/* an incompressible stretch of `head' bytes, then copies of what lies `dist' bytes
+			 * back: the matches of every later block reach into the block before it */
+			size_t head = (size_t)v_ull(v_at(d, 3)), dist = (size_t)v_ull(v_at(d, 4));
+			if (dist == 0) dist = 1;
+			for (i = 0; i < n; i++)
+				p[i] = (i < head || i < dist) ? (unsigned char)(xs(&st) >> 32) : p[i - dist];
 		} else {
 			/* mixed: runs of one byte and random stretches */
 			i = 0;
